@@ -98,8 +98,31 @@ def gen_budget(rng, profile='migrate', year=2025):
                 w = rng.choice(used)
                 rule['match'] = 'contains("%s")' % w + rule['match'][rule['match'].index('")') + 2:]
         b['rules_model'] = m
-        if profile == 'full' and rng.random() < 0.3:
+        if profile == 'full' and rng.random() < 0.4:
             b['rule_mode'] = 'most_specific'
+        if profile == 'full' and used and rng.random() < 0.6:
+            # an overlapping pair: a general rule first, a more specific one later - the rule mode decides who wins
+            w = rng.choice(used)
+            m['rules'].insert(0, {'name': w.title() + ' General', 'match': 'contains("%s")' % w, 'category': 'General', 'subcategory': 'Any',
+                                  'merchant': '', 'tags': [], 'priority': None, 'lets': [], 'fields': []})
+            m['rules'].append({'name': w.title() + ' Specific', 'match': 'contains("%s") and amount > 1' % w, 'category': 'Specific',
+                               'subcategory': 'Narrow', 'merchant': '', 'tags': [], 'priority': None, 'lets': [], 'fields': []})
+        if profile == 'full' and rng.random() < 0.5:
+            # transforms that matter: some descriptions carry a processor prefix that only the transform removes
+            m['transforms'] = [['field.description', 'regex_replace(field.description, "^APLPAY\\\\s+", "")'],
+                               ['field.description', 'strip_prefix(field.description, "SQ *")']][:rng.randint(1, 2)]
+            rows = [rw for s in b['sources'] if not s['supplemental'] for rw in s['rows']]
+            for rw in rng.sample(rows, min(len(rows), rng.randint(1, 3))):
+                w = rw['desc'].split()[0].split('.')[0]
+                rw['desc'] = rng.choice(['APLPAY ', 'SQ *']) + rw['desc']
+                m['rules'].insert(rng.randint(0, len(m['rules'])),
+                                  {'name': w.title() + ' Direct', 'match': 'startswith("%s")' % w, 'category': 'Direct', 'subcategory': 'Prefixless',
+                                   'merchant': '', 'tags': ['direct'], 'priority': None, 'lets': [], 'fields': []})
+            names = set()
+            for k, r in enumerate(m['rules']):
+                while r['name'] in names:
+                    r['name'] += ' %d' % k
+                names.add(r['name'])
     # views
     if profile != 'migrate' and rng.random() < 0.5:
         b['views_model'] = rf.gen_views_model(rng, rng.randint(1, 3), simple=True)
